@@ -113,6 +113,14 @@ def derivative_search(ctx, budget, honesty):
     if abs(float(pv) - pexact) > 1e-6 * abs(pexact) and float(pinfo.error_estimate) < 1e-9:
         ctx.violation('multicomplex second derivative of arctan is wrong with a tiny error estimate', got=float(pv), exact=pexact,
                       error_estimate=float(pinfo.error_estimate), x=1.0454421587490552, signature='C01-multicomplex2-inverse-trig')
+    if not honesty:
+        # deterministic probe of the recorded finding C01-under-resolved-at-final-step
+        with warnings.catch_warnings():
+            warnings.simplefilter('ignore')
+            uv, ui = nd.Derivative(lambda t: np.sin(t * t), n=3, method='central', order=4, full_output=True)(-25.536662458823972)
+        if abs(float(uv) - 31454.693811492572) > 1e-3 * 31454.7:
+            ctx.violation('Derivative is outside the accuracy envelope of (central, n=3)', f='sin(x**2)', x=-25.536662458823972, got=float(uv),
+                          exact=31454.693811492572, final_step=float(ui.final_step), signature='C01-under-resolved-at-final-step')
     for it in range(budget):
         m = rng.choice(list(NMAX))
         n = rng.randint(0 if rng.random() < 0.05 else 1, NMAX[m])
@@ -168,8 +176,12 @@ def derivative_search(ctx, budget, honesty):
         worst[(m, n)] = max(worst.get((m, n), 0.0), ratio / ENV[(m, n)])
         if not honesty:
             if not ratio <= ENV[(m, n)]:
+                # recorded finding: f is under-resolved at the step the generator ends on (see under_resolution)
+                hfin = abs(float(np.ravel(info.final_step)[pick]))
+                ur = under_resolution(d, n, hfin)
+                sig1 = sig or ('C01-under-resolved-at-final-step' if ur > 0.25 else None)
                 ctx.violation('Derivative is outside the accuracy envelope of (%s, n=%d)' % (m, n), got=v, error=err, local_scale=S,
-                              ratio=ratio, envelope=ENV[(m, n)], signature=sig, **rep)
+                              ratio=ratio, envelope=ENV[(m, n)], final_step=hfin, under_resolution=ur, signature=sig1, **rep)
         else:
             fv = np.ravel(info.f_value)[pick] if np.ndim(info.f_value) else info.f_value
             with warnings.catch_warnings():
